@@ -487,6 +487,16 @@ def mac_adversarial(res, lean, r, n):
                 kind = ("d" if os.path.isdir(uni.p(pth)) else "f") if r.random() < 0.85 else r.choice("df")
                 fl = "".join(ch for ch in "crnmt" if r.random() < 0.35)
                 evs.append((pth, spec, kind, fl))
+            if live and r.random() < 0.6:
+                # the two halves of a rename (old name gone, new name = an existing item, same inode) with 0-2 events of
+                # other items between them: the emitter pairs them by inode wherever the partner is in the callback
+                new = r.choice(live)
+                old = r.choice([n for n in names if n not in inos] or ["W/zz"])
+                k = "d" if os.path.isdir(uni.p(new)) else "f"
+                pair = [(old, "~" + new, k, "n" + "".join(ch for ch in "mt" if r.random() < 0.2)),
+                        (new, "=", k, "n" + "".join(ch for ch in "mt" if r.random() < 0.3))]
+                mid = evs[:r.randint(0, 2)]
+                evs = evs[len(mid):][:2] + [pair[0]] + mid + [pair[1]]
             if r.random() < 0.1:
                 evs.append(("W", "=", "d", "x"))
             view = [p for p in live if r.random() < 0.4]
